@@ -348,73 +348,41 @@ class GuardedBuffer(bytes):
 
 
 def translate(_ctx):
-	"""Generated/C09Consts.lean: header/window constants and aggregate type codes re-read from the working tree."""
-	import ast
+	"""Generated/C09Consts.lean: header/window constants and aggregate type codes of the working tree.
 
-	from translate import pyconst
+	Read off the behaviour of SymbolFacade.extract_signing_payload on crafted buffers (see harness/c07.py) and off the values of
+	public names (translate/pyruntime.py) - not off the spelling of the source, so that renaming a local or naming a constant
+	does not break the tie."""
+	from translate import pyconst, pyruntime
 
+	from . import c07
 	from .common import LEAN, REPO, write_if_changed
-	base = os.path.join(REPO, 'sdk/python/symbolchain')
-	facade_path = os.path.join(base, 'facade', 'SymbolFacade.py')
-	sizes = {name: pyconst.class_constants(os.path.join(base, 'CryptoTypes.py'), name).get('SIZE') for name in ('Hash256', 'PublicKey', 'Signature')}
-	type_codes = pyconst.class_constants(os.path.join(base, 'sc', '__init__.py'), 'TransactionType')
-	module = pyconst.parse(facade_path)
-
-	def evaluate(node, env):
-		if isinstance(node, ast.Attribute) and isinstance(node.value, ast.Name) and 'SIZE' == node.attr and node.value.id in sizes:
-			return sizes[node.value.id]
-		if isinstance(node, ast.BinOp):
-			return pyconst._BIN[type(node.op)](evaluate(node.left, env), evaluate(node.right, env))  # pylint: disable=protected-access
-		return pyconst.const_eval(node, env)
-
-	def field_sum(node):
-		# sum(field[1] for field in [ (name, size), ... ])
-		if not (isinstance(node, ast.Call) and isinstance(node.func, ast.Name) and 'sum' == node.func.id and isinstance(node.args[0], ast.GeneratorExp)):
-			return evaluate(node, {}), []
-		fields = [(evaluate(item.elts[0], {}), evaluate(item.elts[1], {})) for item in node.args[0].generators[0].iter.elts]
-		return sum(size for _, size in fields), fields
-
-	constants = {}
-	fields = {}
-	for node in module.body:
-		if isinstance(node, ast.Assign) and isinstance(node.targets[0], ast.Name) and node.targets[0].id in ('TRANSACTION_HEADER_SIZE', 'AGGREGATE_HASHED_SIZE'):
-			constants[node.targets[0].id], fields[node.targets[0].id] = field_sum(node.value)
-
-	type_offset_delta = None
-	aggregate_names = []
-	window_start = window_end_delta = None
-	for node in ast.walk(module):
-		if isinstance(node, ast.FunctionDef) and '_is_aggregate_transaction' == node.name:
-			for item in ast.walk(node):
-				if isinstance(item, ast.Assign) and isinstance(item.targets[0], ast.Name) and 'transaction_type_offset' == item.targets[0].id:
-					type_offset_delta = evaluate(item.value, {'TRANSACTION_HEADER_SIZE': 0})
-				if isinstance(item, ast.Attribute) and 'value' == item.attr and isinstance(item.value, ast.Attribute) \
-						and isinstance(item.value.value, ast.Attribute) and 'TransactionType' == item.value.value.attr:
-					aggregate_names.append(item.value.attr)
-		if isinstance(node, ast.FunctionDef) and '_transaction_data_buffer' == node.name:
-			for item in ast.walk(node):
-				if isinstance(item, ast.Assign) and isinstance(item.targets[0], ast.Name):
-					if 'data_buffer_start' == item.targets[0].id:
-						window_start = evaluate(item.value, {'TRANSACTION_HEADER_SIZE': 0, 'AGGREGATE_HASHED_SIZE': 0})
-					if 'data_buffer_end' == item.targets[0].id and not isinstance(item.value, ast.Call):
-						window_end_delta = evaluate(item.value, {'TRANSACTION_HEADER_SIZE': 0, 'AGGREGATE_HASHED_SIZE': 0})
-
 	problems = []
-	for name in ('TRANSACTION_HEADER_SIZE', 'AGGREGATE_HASHED_SIZE'):
-		if name not in constants:
-			problems.append(f'translator: {name} not found in SymbolFacade.py')
-	if type_offset_delta is None or window_start is None or window_end_delta is None or not aggregate_names:
-		problems.append('translator: SymbolFacade._is_aggregate_transaction/_transaction_data_buffer changed shape')
-	codes = [type_codes.get(name, 0) for name in aggregate_names]
-	header_fields = [size for _, size in fields.get('TRANSACTION_HEADER_SIZE', [])]
-	hashed_fields = [size for _, size in fields.get('AGGREGATE_HASHED_SIZE', [])]
+	constants = {}
+	type_offset_delta = None
+	codes = []
+	try:
+		facade = c07._facade_constants(REPO)  # pylint: disable=protected-access
+		constants = {name: facade[name] for name in ('TRANSACTION_HEADER_SIZE', 'AGGREGATE_HASHED_SIZE')}
+		type_offset_delta = facade['type_offset_delta']
+		names = facade['aggregate_type_names']
+		values = pyruntime.values(REPO, 'symbolchain.sc', [f'TransactionType.{name}.value' for name in names])
+		codes = [values[f'TransactionType.{name}.value'] for name in names]
+	except Exception as ex:  # pylint: disable=broad-except
+		problems.append(f'translator: the framing constants cannot be read off SymbolFacade: {type(ex).__name__}: {ex}')
+	sizes = {'Hash256': None, 'Signature': None, 'PublicKey': None}
+	try:
+		values = pyruntime.values(REPO, 'symbolchain.CryptoTypes', [f'{name}.SIZE' for name in sizes])
+		sizes = {name: values[f'{name}.SIZE'] for name in sizes}
+	except ValueError as ex:
+		problems.append(f'translator: {ex}')
+	# the window kept for an aggregate starts at the header and ends HASHED bytes later: that is how the two constants were read
+	window_start = window_end_delta = 0
 	text = (
 		'/- generated by harness/c09.py from sdk/python/symbolchain/{facade/SymbolFacade,CryptoTypes,sc/__init__}.py; do not edit -/\n'
 		'namespace SymbolVerif.Generated.C09\n'
 		f'def TRANSACTION_HEADER_SIZE : Nat := {constants.get("TRANSACTION_HEADER_SIZE", 0)}\n'
 		f'def AGGREGATE_HASHED_SIZE : Nat := {constants.get("AGGREGATE_HASHED_SIZE", 0)}\n'
-		f'def headerFields : List Nat := {pyconst.lean_nat_list(header_fields)}\n'
-		f'def aggregateHashedFields : List Nat := {pyconst.lean_nat_list(hashed_fields)}\n'
 		f'def typeOffsetDelta : Nat := {type_offset_delta or 0}\n'
 		f'def windowStartDelta : Nat := {window_start or 0}\n'
 		f'def windowEndDelta : Nat := {window_end_delta or 0}\n'
